@@ -13,7 +13,7 @@ SRC_DEPS = {"Overlaps": ["Overlaps"], "Intersection": ["Intersection"], "Extend"
 SRC_MODULES = [T + "Src." + n for n in SRC_DEPS]
 CFG = {
     "id": "C04",
-    "lean_modules": ["GeomV.C04.Proofs", "GeomV.C04.ProofsNaN", "GeomV.C04.ProofsMore", "GeomV.C04.ProofsNil"] + TIE_MODULES + SRC_MODULES,
+    "lean_modules": ["GeomV.C04.Proofs", "GeomV.C04.ProofsNaN", "GeomV.C04.ProofsMore", "GeomV.C04.ProofsNil", "GeomV.C04.ProofsNaNBox"] + TIE_MODULES + SRC_MODULES,
     "exe": "geomv_c04",
     "go_cmd": "c04",
     "stages": ["go:gen", "go:impl", "lean:judge"],
@@ -33,6 +33,12 @@ CFG = {
         # attained bound of the non-NaN coordinates of its axis), proved for the model, its decidable form = the Prop,
         # the executed instance; a *Bounds with NaN sides as a geometry
         "C04_nan_envelope", "C04_spec_envelopeNaN", "C04_nan_exec", "C04_nan_box_geometry",
+        # phase 4 — box operations with NaN sides: Overlaps is true exactly when no side is NaN and the value boxes share a point;
+        # the model's Overlaps/Intersection/Empty answers satisfy the axis-by-axis clauses every reading demands (SpecNaN.lean),
+        # their decidable forms are those clauses, the executed instance; c.Extend(c) through one pointer = Extend by a copy for
+        # every box of values, not with NaN (witness)
+        "C04_nan_overlaps", "C04_nan_overlaps_ok", "C04_nan_intersection_ok", "C04_nan_intersection_side", "C04_nan_empty_ok",
+        "C04_nan_empty_nan_axis", "C04_spec_boxNaN", "C04_nan_box_exec", "C04_extend_self_alias", "C04_extend_self_alias_nan",
         # outside the hypotheses: Len()/Bounds() panic exactly when a member is nil (nil dereference, the only possible
         # fault); the first call beyond Len() (Point: itself again; *Bounds without points: its Min corner; *Bounds with
         # points: "out of bounds"; every other type incl. collections: index out of range)
@@ -89,7 +95,9 @@ CFG = {
         "NaN coordinates are outside the property's quantifier: geometries with NaN are judged on Len/Points as usual (C04_len/C04_points do not depend on "
         "the coordinate type) and on Bounds() by the envelope clause read with NaN (SpecNaN.lean IsEnvelopeNaN: an axis without NaN has non-NaN sides, a non-NaN side "
         "is an attained bound of the non-NaN coordinates of its axis; proved for the model, C04_nan_envelope/C04_nan_exec; SPEC) and then by correspondence with the "
-        "model run at NV FKey (DIFF); a geometry containing a *Bounds with a NaN side is correspondence only (DIFF, never SPEC). Box lines with NaN are skipped",
+        "model run at NV FKey (DIFF); a geometry containing a *Bounds with a NaN side is correspondence only (DIFF, never SPEC). Box lines (ovl/int/ext/ext3/empty/self) with NaN sides: "
+        "Overlaps/Intersection/Empty answers judged by the axis-by-axis clauses every reading demands (SpecNaN.lean OverlapsOkNaN/IntersectionOkNaN/EmptyOkNaN; SPEC), "
+        "every answer incl. Extend compared with the model at NV FKey (DIFF); self3 lines with NaN are skipped",
         "no nil interface value inside a GeometryCollection (nil is not one of the eight types): there the specification is not applied; what the model does is "
         "proved (C04_len_fault_iff, C04_bounds_fault_iff, C04_nil_points_prefix/_fault) and compared with the code (Len/Bounds panic, the points drained before the panic)",
         "C04_overlaps, C04_intersection, C04_extend_join, C04_extend_laws_sets hold for ALL boxes (empty, inverted, infinite); "
